@@ -25,6 +25,7 @@ type Write struct {
 }
 
 var errClosedConn = errors.New("use of closed network connection")
+var errInjectedWrite = errors.New("network is down (injected)")
 
 // Conn is a scripted net.PacketConn built on shim primitives: ReadFrom blocks on a
 // scheduler-owned queue, every WriteTo is a scheduling point and is logged.
@@ -34,6 +35,8 @@ type Conn struct {
 	closed   bool
 	h        *History
 	WriteErr error
+	FailWrite map[int]bool // indices (0-based, in call order) of WriteTo calls that fail
+	nWrites   int
 	OnWrite  func(w Write)
 	OnReadErr func() // called when a scripted read error is handed to the code under test
 	local    net.Addr
@@ -93,6 +96,12 @@ func (c *Conn) WriteTo(b []byte, addr net.Addr) (int, error) {
 	}
 	if c.WriteErr != nil {
 		return 0, c.WriteErr
+	}
+	k := c.nWrites
+	c.nWrites++
+	if c.FailWrite[k] {
+		c.h.add(Event{Kind: EvNote, Note: "write-fault"})
+		return 0, errInjectedWrite
 	}
 	w := Write{T: vs.NowTicks(), Dest: addr.String(), Data: append([]byte(nil), b...)}
 	w.Seq = c.h.add(Event{Kind: EvTX, W: &w})
